@@ -11,7 +11,7 @@ ID = "C01"
 LEVEL = "exploration"
 RULE = ("every rule of the families F1 (one item: 6 mnemonic names x every operand-name list of length 0..K over 9 "
         "names incl. an int), F2 (all ordered pairs over a 14-item pool), F3 (all triples over a 6-item pool), F4 "
-        "(<hex>h-shaped and int operand names), F5 (mnemonics ending in segment-register / prefix letters), F6 (names differing from the listing only in letter case) x the 4 full-match flag settings x EVERY listing of length 0..L over an "
+        "(<hex>h-shaped and int operand names), F5 (mnemonics ending in segment-register / prefix letters), F6 (names differing from the listing only in letter case), an interleaved family (two matcher objects of one rule under different flag settings, both built before either is used) x the 4 full-match flag settings x EVERY listing of length 0..L over an "
         "8-instruction near-miss alphabet (swapped operands, substring/extension mnemonics and operands, 0-3 operands, "
         "an address spelling a mnemonic); real YAML file -> real compiler, real objdump-style text -> real parser -> "
         "real regex search; oracle = regex-free reference matcher on the instruction list. Each (rule,config,listing) "
@@ -167,7 +167,11 @@ def long_ns(tier):
     return [8300, 32800, 40000] if tier == "quick" else [4200, 8300, 32800, 40000, 65600, 70001, 131200]
 
 
+INTERLEAVE_RULES = [["ov"], [{"mov": ["rax"]}], [{"mov": ["rax", "rbx"]}], ["mov", "push"], [{"push": ["rax"]}, "ret"], [{"ov": ["ax", "ax"]}]]
+
+
 def run_shard(shard, tier, h, res, known):
+    e1.run_interleaved(shard, h, res, known, INTERLEAVE_RULES, e1.get_lsets(h, tier, build_lsets)["L3"])
     e1.run_long_family(h, res, known, shard, LONGLIST, long_ns(tier), prop=ID)
     run_long(shard, tier, h, res, known)
     cases = rule_cases(tier)
@@ -220,6 +224,8 @@ def replay(case, h):
         run_long({"lo": 0, "n": 1}, "quick", h, r, set())
         hit = [f for f in r.fails if f["n_items"] == case["n_items"] and f["base"] == case["base"] and f["edited_position"] == case["edited_position"]]
         return bool(hit), str(hit)[:300]
+    if case.get("family") == "interleave":
+        return e1.replay_interleaved(case, h)
     return e1.replay_case(case, h)
 
 ENGINE = "E1"
